@@ -171,7 +171,9 @@ def gen_trace(rng, numeric=True, profile="wiring", values=None, p_bad=0.06):
             ms = tuple(sorted(rng.sample(range(nuser), rng.randint(0, nuser)))) if nuser else ()
             if bad:
                 ms = ms + (nuser,)
-            rec.call("bar", t, (ms,), lambda: c.barrier(list(ms)) if ms else c.barrier())
+            elif rng.random() < 0.3:
+                ms = (99,)          # modes = None: all user modes
+            rec.call("bar", t, (ms,), lambda: c.barrier() if ms == (99,) else c.barrier(list(ms)))
         elif kind == "swap":
             if nuser < 2:
                 continue
